@@ -30,7 +30,8 @@ def known_id(fam):
         return 'C16-intervener-run'
     if TWPRGE_END.search(p) and u.strip() == '':
         return 'C16-whitespace-after-twprge'
-    if ALIQUOT_END.search(p) and u.strip() == '' and '\n' in u and len(u) > 1 and fam['suffix'].strip():
+    # a whitespace run that reduce_whitespace() leaves standing: blanks alternating with line breaks, or blanks other than space / tab (NBSP, em space ...)
+    if ALIQUOT_END.search(p) and u.strip() == '' and (('\n' in u and len(u) > 1) or any(c not in ' \t\n\r' for c in u)) and fam['suffix'].strip():
         return 'C16-aliquot-newline-run'
     return None
 
